@@ -1,23 +1,383 @@
+//! Witness search and replay against the REAL nun-db code (native build, public API).
+//!
+//!   nundb-replay search <label>            enumerate small scenarios, print the first one that violates <label>
+//!   nundb-replay run    <label> <scenario>  re-execute one scenario; exit 1 if <label> is violated
+//!
+//! The clauses below are the contract clauses of /verif/contracts/*.vc transcribed as executable
+//! predicates.  This program never decides a verdict (Verus / Kani do); it only turns a failed
+//! obligation into a concrete input when a small one exists.
+use futures::channel::mpsc::{channel, Receiver, Sender};
 use nundb::bo::*;
 use nundb::db_ops::*;
-use futures::channel::mpsc::{channel, Receiver, Sender};
 use std::collections::HashMap;
+use std::panic::{catch_unwind, AssertUnwindSafe};
 use std::sync::Arc;
-fn dbs() -> Arc<Databases> {
-    let (s1, _r1): (Sender<String>, Receiver<String>) = channel(100);
-    let (s2, _r2): (Sender<String>, Receiver<String>) = channel(100);
-    std::mem::forget(_r1); std::mem::forget(_r2);
+
+const MARK: i32 = -2;
+
+fn mk_dbs() -> Arc<Databases> {
+    let (s1, r1): (Sender<String>, Receiver<String>) = channel(1000);
+    let (s2, r2): (Sender<String>, Receiver<String>) = channel(1000);
+    std::mem::forget(r1);
+    std::mem::forget(r2);
     let d = Arc::new(Databases::new("u".into(), "p".into(), "".into(), "".into(), s1, s2, HashMap::new(), 1, true));
     d.node_state.swap(ClusterRole::Primary as usize, std::sync::atomic::Ordering::Relaxed);
     d
 }
-fn main() {
-    let dbs = dbs();
-    // what a restart leaves when only `b` (id 2) had been snapshotted: $admin:0, b:2
-    dbs.add_database(Database::new("b".into(), DatabaseMataData::new(2, ConsensuStrategy::None)));
+
+fn sat_inc(x: i32) -> i32 { if x == i32::MAX { i32::MAX } else { x + 1 } }
+fn is_marker(v: i32, resolving: bool) -> bool { v == MARK && resolving }
+fn spec_next_version(cv: i32, resolving: bool, ov: i32) -> i32 {
+    if is_marker(cv, resolving) { cv }
+    else if resolving { sat_inc(if ov == MARK { cv } else { ov }) }
+    else if ov == MARK { ov }
+    else if cv == -1 { sat_inc(ov) }
+    else { sat_inc(cv) }
+}
+fn upd(s: ValueStatus) -> ValueStatus { if s == ValueStatus::New { ValueStatus::New } else { ValueStatus::Updated } }
+
+const VERSIONS: [i32; 10] = [-3, -2, -1, 0, 1, 4, 5, 6, i32::MAX - 1, i32::MAX];
+const STATES: [ValueStatus; 4] = [ValueStatus::New, ValueStatus::Ok, ValueStatus::Updated, ValueStatus::Deleted];
+
+#[derive(Clone, Debug)]
+struct Entry { value: String, version: i32, state: ValueStatus, va: u64, ka: u64, opp: u64 }
+
+fn snapshot(db: &Database) -> HashMap<String, Entry> {
+    let m = db.map.read().unwrap();
+    m.iter().map(|(k, v)| (k.clone(), Entry { value: v.value.clone(), version: v.version, state: v.state, va: v.value_disk_addr, ka: v.key_disk_addr, opp: v.opp_id })).collect()
+}
+fn same(a: &Entry, b: &Entry) -> bool {
+    a.value == b.value && a.version == b.version && a.state == b.state && a.va == b.va && a.ka == b.ka && a.opp == b.opp
+}
+fn maps_equal(a: &HashMap<String, Entry>, b: &HashMap<String, Entry>) -> bool {
+    a.len() == b.len() && a.iter().all(|(k, v)| b.get(k).map_or(false, |w| same(v, w)))
+}
+fn frame_except(a: &HashMap<String, Entry>, b: &HashMap<String, Entry>, keys: &[&str]) -> bool {
+    let ks: Vec<&String> = a.keys().chain(b.keys()).collect();
+    ks.iter().all(|k| keys.contains(&k.as_str()) || match (a.get(*k), b.get(*k)) { (Some(x), Some(y)) => same(x, y), _ => false })
+}
+fn drain(rx: &mut Receiver<String>) -> Vec<String> {
+    let mut v = vec![];
+    while let Ok(Some(m)) = rx.try_next() { v.push(m); }
+    v
+}
+
+/// a database holding the neighbour key "n" and (optionally) key "k" in a chosen state, with a watcher on "k"
+fn mk_db(strategy: ConsensuStrategy, k: Option<(i32, ValueStatus, &str)>) -> (Database, Receiver<String>) {
+    let db = Database::new("d".into(), DatabaseMataData::new(1, strategy));
+    db.set_value_version(&"n".to_string(), &"nv".to_string(), 7, ValueStatus::Ok, 70, 71, 72);
+    if let Some((v, st, val)) = k {
+        let (va, ka) = if st == ValueStatus::New { (0, 0) } else { (40, 41) };
+        db.set_value_version(&"k".to_string(), &val.to_string(), v, st, va, ka, 42);
+    }
+    let (s, r): (Sender<String>, Receiver<String>) = channel(1000);
+    db.watch_key(&"k".to_string(), &s);
+    std::mem::forget(s);
+    (db, r)
+}
+
+type Violations = Vec<String>;
+fn chk(v: &mut Violations, label: &str, ok: bool) { if !ok && !v.iter().any(|x| x == label) { v.push(label.to_string()); } }
+
+// ------------------------------------------------------------------ family: store (set / remove / inc / get)
+fn scenario_store(sc: &str) -> Result<Violations, String> {
+    // sc = "<op>|<key state>|<args>"   key state: "absent" or "<version>:<state idx>:<value>"
+    let p: Vec<&str> = sc.split('|').collect();
+    if p.len() < 3 { return Err("bad scenario".into()); }
+    let kstate: Option<(i32, ValueStatus, String)> = if p[1] == "absent" { None } else {
+        let q: Vec<&str> = p[1].splitn(3, ':').collect();
+        Some((q[0].parse().map_err(|_| "bad version")?, STATES[q[1].parse::<usize>().map_err(|_| "bad state")?], q[2].to_string()))
+    };
+    let (db, mut rx) = mk_db(ConsensuStrategy::None, kstate.as_ref().map(|(v, s, val)| (*v, *s, val.as_str())));
+    let before = snapshot(&db);
+    let old = before.get("k").cloned();
+    let mut v: Violations = vec![];
+    let args: Vec<&str> = p[2].split(',').collect();
+    match p[0] {
+        "set" => {
+            let cv: i32 = args[0].parse().map_err(|_| "bad v")?;
+            let resolving = args[1] == "1";
+            let mut change = Change::new("k".into(), "NEW".into(), cv);
+            if resolving { change = change.to_resolve_change(); }
+            if let Some(o) = &old {
+                let ov = Value { value: o.value.clone(), version: o.version, opp_id: o.opp, state: o.state, value_disk_addr: o.va, key_disk_addr: o.ka };
+                let nv = catch_unwind(AssertUnwindSafe(|| change.next_version(&ov)));
+                match nv { Ok(n) => chk(&mut v, "C02.next-version", n == spec_next_version(cv, resolving, o.version)), Err(_) => chk(&mut v, "C10.safety", false) }
+            }
+            let r = match catch_unwind(AssertUnwindSafe(|| db.set_value(&change))) { Ok(r) => r, Err(_) => { v.push("C10.safety".into()); return Ok(v); } };
+            let after = snapshot(&db);
+            let msgs = drain(&mut rx);
+            let is_set = matches!(r, Response::Set { .. });
+            let is_ve = matches!(r, Response::VersionError { .. });
+            chk(&mut v, "C01.frame-set", frame_except(&before, &after, &["k"]));
+            if is_ve { chk(&mut v, "C01.refused-unchanged", maps_equal(&before, &after)); chk(&mut v, "C03.no-emit-refused", msgs.is_empty()); }
+            match &old {
+                None => { chk(&mut v, "C02.cas-absent", is_set);
+                          if is_set { chk(&mut v, "C02.absent-version", after["k"].version == sat_inc(cv)); } }
+                Some(o) => {
+                    let refused = spec_next_version(cv, resolving, o.version) <= o.version && !is_marker(cv, resolving);
+                    chk(&mut v, "C02.cas-rule", is_ve == refused);
+                    if !resolving && o.version != MARK && cv < i32::MAX && o.version < i32::MAX {
+                        chk(&mut v, "C02.cas-statement", is_set == (cv == -1 || cv >= o.version));
+                    }
+                    if is_set && !is_marker(cv, resolving) { chk(&mut v, "C02.grow", after["k"].version > o.version); }
+                    if is_set {
+                        let a = &after["k"];
+                        chk(&mut v, "C01.set-stores", a.version == spec_next_version(cv, resolving, o.version) && a.state == upd(o.state) && a.va == o.va && a.ka == o.ka);
+                    }
+                }
+            }
+            if is_set {
+                let a = &after["k"];
+                chk(&mut v, "C01.set-stores", a.value == "NEW" && a.opp == change.opp_id);
+                if let Response::Set { key, value } = &r { chk(&mut v, "C01.set-reply", key == "k" && value == "NEW"); }
+                chk(&mut v, "C03.emit-set", msgs.len() == 2 && msgs[0] == "changed k NEW\n" && msgs[1] == format!("changed-version k {} NEW\n", a.version));
+            }
+        }
+        "remove" => {
+            let key = args[0];
+            let r = match catch_unwind(AssertUnwindSafe(|| db.remove_value(key.to_string()))) { Ok(r) => r, Err(_) => { v.push("C10.safety".into()); return Ok(v); } };
+            let after = snapshot(&db);
+            let msgs = drain(&mut rx);
+            if key == "$$token" {
+                chk(&mut v, "C08.token-immortal", matches!(r, Response::Error { .. }) && maps_equal(&before, &after) && msgs.is_empty());
+            } else {
+                chk(&mut v, "C01.frame-remove", frame_except(&before, &after, &["k"]));
+                match &old {
+                    None => chk(&mut v, "C01.remove-absent", maps_equal(&before, &after)),
+                    Some(o) if o.state == ValueStatus::New => chk(&mut v, "C01.remove-new", !after.contains_key("k")),
+                    Some(o) => { let a = after.get("k");
+                        chk(&mut v, "C01.remove-tombstone", a.map_or(false, |a| a.value == "<Empty>" && a.state == ValueStatus::Deleted
+                            && a.version == sat_inc(o.version) && a.va == o.va && a.ka == o.ka && a.opp == o.opp)); }
+                }
+                chk(&mut v, "C03.emit-removed", msgs.len() == 1 && msgs[0] == "removed k\n");
+            }
+        }
+        "inc" => {
+            let inc: i32 = args[0].parse().map_err(|_| "bad inc")?;
+            let r = match catch_unwind(AssertUnwindSafe(|| db.inc_value("k".to_string(), inc))) { Ok(r) => r, Err(_) => { v.push("C10.safety".into()); return Ok(v); } };
+            let after = snapshot(&db);
+            let msgs = drain(&mut rx);
+            let cur: String = match &old { Some(o) if o.state != ValueStatus::Deleted => o.value.clone(), _ => "0".to_string() };
+            let parsed = i32::from_str_radix(&cur, 10).ok();
+            chk(&mut v, "C01.frame-inc", frame_except(&before, &after, &["k"]));
+            match parsed {
+                Some(n) => if let Some(sum) = n.checked_add(inc) {
+                    chk(&mut v, "C01.inc-adds", matches!(r, Response::Ok {}) && after.get("k").map_or(false, |a| a.value == sum.to_string() && a.state != ValueStatus::Deleted));
+                },
+                None => chk(&mut v, "C01.inc-refuses", matches!(r, Response::Error { .. }) && maps_equal(&before, &after)),
+            }
+            if matches!(r, Response::Error { .. }) { chk(&mut v, "C01.inc-refuses", maps_equal(&before, &after) && msgs.is_empty()); }
+            if matches!(r, Response::Ok {}) {
+                if let Some(o) = &old {
+                    if o.version < i32::MAX { chk(&mut v, "C02.grow-inc", after["k"].version > o.version); }
+                    chk(&mut v, "C01.inc-keeps-disk-state", after["k"].va == o.va && after["k"].ka == o.ka && after["k"].state == upd(o.state));
+                }
+                chk(&mut v, "C03.emit-inc", msgs.len() == 2 && msgs[0] == format!("changed k {}\n", after["k"].value));
+            }
+        }
+        "get" => {
+            let r = get_key_value_new(&"k".to_string(), &db);
+            if let Response::Value { key, value, version } = r {
+                match &old { Some(o) => chk(&mut v, "C01.get-reply", key == "k" && value == o.value && version == o.version),
+                             None => chk(&mut v, "C01.get-reply", key == "k" && value == "<Empty>" && version == 1) }
+            } else { chk(&mut v, "C01.get-reply", false); }
+        }
+        _ => return Err("unknown op".into()),
+    }
+    Ok(v)
+}
+
+fn all_store_scenarios() -> Vec<String> {
+    let mut out = vec![];
+    let mut kstates = vec!["absent".to_string()];
+    for ver in VERSIONS { for (si, st) in STATES.iter().enumerate() {
+        for val in ["5", "x", "2147483647"] {
+            let val = if *st == ValueStatus::Deleted { "<Empty>" } else { val };
+            kstates.push(format!("{}:{}:{}", ver, si, val));
+        } } }
+    kstates.dedup();
+    for ks in &kstates {
+        for cv in VERSIONS { for res in ["0", "1"] { out.push(format!("set|{}|{},{}", ks, cv, res)); } }
+        out.push(format!("remove|{}|k", ks));
+        out.push(format!("remove|{}|$$token", ks));
+        for inc in [1, -1, i32::MAX, i32::MIN] { out.push(format!("inc|{}|{}", ks, inc)); }
+        out.push(format!("get|{}|-", ks));
+    }
+    out
+}
+
+// ------------------------------------------------------------------ family: strategy (newer / none / arbiter through set_key_value)
+fn scenario_strategy(sc: &str) -> Result<Violations, String> {
+    // sc = "<strategy>|<old version>|<client version>|<arbiter 0/1>"
+    let p: Vec<&str> = sc.split('|').collect();
+    let strategy = match p[0] { "newer" => ConsensuStrategy::Newer, "arbiter" => ConsensuStrategy::Arbiter, _ => ConsensuStrategy::None };
+    let ov: i32 = p[1].parse().map_err(|_| "bad")?;
+    let cv: i32 = p[2].parse().map_err(|_| "bad")?;
+    let dbs = mk_dbs();
+    let (db, mut rx) = mk_db(strategy, Some((ov, ValueStatus::Ok, "OLD")));
+    let (arb, _arx) = Client::new_empty_and_receiver();
+    if p[3] == "1" { db.register_arbiter(&arb); }
+    let before = snapshot(&db);
+    let mut v: Violations = vec![];
+    let r = match catch_unwind(AssertUnwindSafe(|| set_key_value("k".into(), "NEW".into(), cv, &db, &dbs))) { Ok(r) => r, Err(_) => { v.push("C10.safety".into()); return Ok(v); } };
+    let after = snapshot(&db);
+    let msgs = drain(&mut rx);
+    let is_set = matches!(r, Response::Set { .. });
+    match strategy {
+        ConsensuStrategy::Newer => {
+            if ov < i32::MAX { chk(&mut v, "C19.set-never-refused", is_set); chk(&mut v, "C19.apply-never-refused", is_set); chk(&mut v, "C19.never-refused", is_set); }
+            if let Response::Set { value, .. } = &r { let ok = after.get("k").map_or(false, |a| &a.value == value);
+                chk(&mut v, "C19.set-reply-truth", ok); chk(&mut v, "C19.apply-reply-truth", ok); chk(&mut v, "C19.reply-truth", ok); }
+            let g = after.get("k").map_or(false, |a| a.version >= ov);
+            chk(&mut v, "C19.set-grow", g); chk(&mut v, "C19.apply-grow", g); chk(&mut v, "C19.grow", g);
+            chk(&mut v, "C19.apply-frame", frame_except(&before, &after, &["k"])); chk(&mut v, "C19.frame", frame_except(&before, &after, &["k"]));
+            let replaced = after["k"].value != before["k"].value;
+            chk(&mut v, "C19.notify-iff-changed", replaced == !msgs.is_empty());
+        }
+        ConsensuStrategy::None => {
+            if ov != MARK && cv < i32::MAX && ov < i32::MAX {
+                chk(&mut v, "C02.set-cas", is_set == (cv == -1 || cv >= ov));
+                chk(&mut v, "C02.cas-statement", is_set == (cv == -1 || cv >= ov));
+            }
+            if !is_set { chk(&mut v, "C02.set-cas", maps_equal(&before, &after)); chk(&mut v, "C02.none-strategy", maps_equal(&before, &after)); chk(&mut v, "C02.apply-none", maps_equal(&before, &after)); }
+        }
+        ConsensuStrategy::Arbiter => {
+            if !is_set {
+                let kept = after.get("k").map_or(false, |a| a.value == "OLD");
+                chk(&mut v, "C13.set-arbiter", kept); chk(&mut v, "C13.apply-arbiter", kept); chk(&mut v, "C13.keep-old", kept);
+                if p[3] == "0" { chk(&mut v, "C13.refuse", maps_equal(&before, &after)); }
+                else {
+                    chk(&mut v, "C13.keep-old", after["k"].version == MARK);
+                    let notices: Vec<&String> = after.keys().filter(|k| k.starts_with("$conflicts_k_")).collect();
+                    chk(&mut v, "C13.record", notices.len() == 1 && !after[notices[0]].value.starts_with("resolved"));
+                    chk(&mut v, "C13.not-applied", after.iter().all(|(k, e)| k == "k" || k.starts_with("$conflicts_k_") || before.get(k).map_or(false, |b| same(b, e))));
+                }
+            }
+        }
+    }
+    Ok(v)
+}
+fn all_strategy_scenarios() -> Vec<String> {
+    let mut out = vec![];
+    for s in ["newer", "none", "arbiter"] { for ov in VERSIONS { for cv in VERSIONS { for a in ["0", "1"] {
+        if s != "arbiter" && a == "1" { continue; }
+        out.push(format!("{}|{}|{}|{}", s, ov, cv, a));
+    } } } }
+    out
+}
+
+// ------------------------------------------------------------------ family: pending (register / ack event sequences)
+fn scenario_pending(sc: &str) -> Result<Violations, String> {
+    // sc = comma separated events  r<op><node> / a<op><node>, e.g. "r1a,r1b,a1a,a1a,a2c"
+    let dbs = mk_dbs();
+    let mut v: Violations = vec![];
+    let mut owing: HashMap<u64, Vec<String>> = HashMap::new();
+    for ev in sc.split(',').filter(|e| !e.is_empty()) {
+        let kind = &ev[0..1]; let op: u64 = ev[1..2].parse().map_err(|_| "bad op")?; let node = ev[2..].to_string();
+        if kind == "r" {
+            if owing.get(&op).map_or(false, |o| o.contains(&node)) { continue; } // call-site condition of the contract
+            dbs.register_pending_opp(op, "m".into(), &node);
+            owing.entry(op).or_default().push(node);
+        } else {
+            let expect = owing.get(&op).map_or(false, |o| o.contains(&node));
+            let r = dbs.acknowledge_pending_opp(op, &node);
+            chk(&mut v, "C15.ack-exact", r == expect);
+            chk(&mut v, "C15.once", r == expect); chk(&mut v, "C15.duplicate", r == expect); chk(&mut v, "C15.foreign", r == expect);
+            if let Some(o) = owing.get_mut(&op) { o.retain(|n| n != &node); if o.is_empty() { owing.remove(&op); } }
+        }
+        let pending: Vec<u64> = dbs.pending_opps.read().unwrap().keys().cloned().collect();
+        let ok = pending.len() == owing.len() && pending.iter().all(|p| owing.contains_key(p));
+        for l in ["C15.pending-iff-owing", "C15.pending-iff-unacked", "C15.exact-ack", "C15.exact-register", "C15.idempotent", "C15.unknown-op",
+                  "C15.wf-ack", "C15.wf-register", "C15.wf-ack-pending", "C15.wf-register-pending", "C15.register-pending", "C15.register", "C15.frame-ack", "C15.frame-register"] {
+            chk(&mut v, l, ok);
+        }
+        for (op, nodes) in &owing {
+            if let Some(c) = dbs.get_pending_opp_copy(*op) { chk(&mut v, "C15.observe", c.count_replication() - c.count_acknowledged() == nodes.len()); }
+            else { chk(&mut v, "C15.observe", false); }
+        }
+    }
+    Ok(v)
+}
+fn all_pending_scenarios() -> Vec<String> {
+    let evs = ["r1a", "r1b", "a1a", "a1b", "a1c", "r2a", "a2a"];
+    let mut out = vec![];
+    fn rec(evs: &[&str], cur: &mut Vec<String>, depth: usize, out: &mut Vec<String>) {
+        if !cur.is_empty() { out.push(cur.join(",")); }
+        if depth == 0 { return; }
+        for e in evs { cur.push(e.to_string()); rec(evs, cur, depth - 1, out); cur.pop(); }
+    }
+    rec(&evs, &mut vec![], 4, &mut out);
+    out
+}
+
+// ------------------------------------------------------------------ family: ids
+fn scenario_ids(sc: &str) -> Result<Violations, String> {
+    // sc = comma separated ids of pre-existing databases, e.g. "2" or "1,3"
+    let dbs = mk_dbs();
+    let mut v: Violations = vec![];
+    for (i, id) in sc.split(',').filter(|e| !e.is_empty()).enumerate() {
+        dbs.add_database(Database::new(format!("db{}", i), DatabaseMataData::new(id.parse().map_err(|_| "bad id")?, ConsensuStrategy::None)));
+    }
     let (client, _rx) = Client::new_empty_and_receiver();
-    println!("{:?}", create_db(&"c".to_string(), &"tok".to_string(), &dbs, &client, ConsensuStrategy::None));
+    create_db(&"fresh".to_string(), &"tok".to_string(), &dbs, &client, ConsensuStrategy::None);
     let m = dbs.map.read().unwrap();
-    for (n, d) in m.iter() { println!("{} -> id {}", n, d.metadata.id); }
-    println!("id_name_db_map: {:?}", dbs.id_name_db_map.read().unwrap());
+    let mut ids: Vec<usize> = m.values().map(|d| d.metadata.id).collect();
+    let n = ids.len(); ids.sort(); ids.dedup();
+    let ok = ids.len() == n;
+    for l in ["C16.db-fresh", "C16.next-id-fresh", "C16.db-ids-wf", "C16.db-ids-unique"] { chk(&mut v, l, ok); }
+    Ok(v)
+}
+fn all_ids_scenarios() -> Vec<String> {
+    let mut out = vec!["".to_string()];
+    for a in 1..6 { out.push(format!("{}", a)); for b in 1..6 { if a != b { out.push(format!("{},{}", a, b)); } } }
+    out
+}
+
+fn families() -> Vec<(&'static str, fn() -> Vec<String>, fn(&str) -> Result<Violations, String>)> {
+    vec![("store", all_store_scenarios, scenario_store), ("strategy", all_strategy_scenarios, scenario_strategy),
+         ("pending", all_pending_scenarios, scenario_pending), ("ids", all_ids_scenarios, scenario_ids)]
+}
+
+fn main() {
+    std::panic::set_hook(Box::new(|_| {}));
+    let a: Vec<String> = std::env::args().collect();
+    if a.len() < 3 { eprintln!("usage: search <label> | run <label> <family:scenario> | selftest"); std::process::exit(2); }
+    let label = a[2].as_str();
+    match a[1].as_str() {
+        "search" => {
+            let mut tried = 0usize;
+            for (fam, gen, run) in families() {
+                for sc in gen() {
+                    tried += 1;
+                    if let Ok(v) = run(&sc) {
+                        if v.iter().any(|l| l == label) {
+                            println!("{{\"found\":true,\"family\":\"{}\",\"scenario\":\"{}\",\"violated\":\"{}\",\"tried\":{}}}", fam, sc, v.join(" "), tried);
+                            return;
+                        }
+                    }
+                }
+            }
+            println!("{{\"found\":false,\"tried\":{}}}", tried);
+        }
+        "run" => {
+            let (fam, sc) = a[3].split_once(':').expect("family:scenario");
+            for (f, _gen, run) in families() {
+                if f == fam {
+                    let v = run(sc).expect("bad scenario");
+                    println!("scenario {}:{} violates: [{}]", fam, sc, v.join(" "));
+                    std::process::exit(if v.iter().any(|l| l == label) { 1 } else { 0 });
+                }
+            }
+            std::process::exit(2);
+        }
+        "selftest" => {
+            // on a correct tree no scenario violates anything
+            let mut n = 0usize; let mut bad = 0usize;
+            for (fam, gen, run) in families() { for sc in gen() { n += 1; if let Ok(v) = run(&sc) { if !v.is_empty() { bad += 1; if bad <= 10 { println!("{}:{} -> {:?}", fam, sc, v); } } } } }
+            println!("selftest: {} scenarios, {} with violations", n, bad);
+            std::process::exit(if bad == 0 { 0 } else { 1 });
+        }
+        _ => std::process::exit(2),
+    }
 }
